@@ -33,7 +33,8 @@ Null == "NULL"
 Gone == [ex |-> FALSE, det |-> FALSE, cr |-> Null, st |-> "NONE", hash |-> FALSE, inp |-> {}]
 
 \* st: [p : [st, hash], n : node -> record]
-Init0 == [p |-> [st |-> "PENDING", hash |-> FALSE], n |-> [k \in Nodes |-> Gone]]
+\* j: jobs in flight per step (dispatched, completion not yet recorded); crash: the director died
+Init0 == [p |-> [st |-> "PENDING", hash |-> FALSE], n |-> [k \in Nodes |-> Gone], j |-> [s \in Steps |-> 0], crash |-> FALSE]
 
 IsFile(k) == k \in Files
 Products(st, k) == {m \in Nodes : st.n[m].ex /\ st.n[m].cr = k}
@@ -70,7 +71,7 @@ MarkPending(st, seeds) ==
         ELSE IF m \in P THEN [st.n[m] EXCEPT !.st = "PENDING"] ELSE st.n[m]]]
 
 (* ------------------------------------ the plan ------------------------------------ *)
-StartPEnabled(st) == st.p.st = "PENDING"
+StartPEnabled(st) == ~st.crash /\ st.p.st = "PENDING"
 DoStartP(st) ==
   \* reset_for_rerun: created steps and static declarations are detached
   LET s1 == [st EXCEPT !.p.st = "RUNNING"]
@@ -79,13 +80,13 @@ DoStartP(st) ==
   IN DetAll(s1, {k \in Nodes : st.n[k].ex /\ st.n[k].cr = "P"
                               /\ (k \in Steps \/ st.n[k].st \in {"CONFIRMED", "MISSING", "UNCONFIRMED"})})
 
-StaticEnabled(st) == st.p.st = "RUNNING" /\ ~(st.n["x"].ex /\ ~st.n["x"].det)
+StaticEnabled(st) == ~st.crash /\ st.p.st = "RUNNING" /\ ~(st.n["x"].ex /\ ~st.n["x"].det)
 DoStatic(st) ==
   \* declared (a detached node is re-used) and confirmed: consumers of a file that (re)appears are made pending
   LET s1 == [st EXCEPT !.n["x"] = [ex |-> TRUE, det |-> FALSE, cr |-> "P", st |-> "CONFIRMED", hash |-> FALSE, inp |-> {}]]
   IN MarkPending(s1, Consumers(st, "x"))
 
-DefineEnabled(st, s, I) == st.p.st = "RUNNING" /\ ~(st.n[s].ex /\ ~st.n[s].det)
+DefineEnabled(st, s, I) == ~st.crash /\ st.p.st = "RUNNING" /\ ~(st.n[s].ex /\ ~st.n[s].det)
 \* an input that nothing declares gets a detached placeholder
 \* (a detached node that nobody owns is re-created as such a placeholder: it forgets its state, unless
 \* it remembers having been built)
@@ -115,7 +116,7 @@ DoDefine(st, s, I) ==
                                       hash |-> st.n[s].ex /\ st.n[s].hash, inp |-> I]]
        IN DeclareOutput(Placeholders(s1, I), s)
 
-FinishPEnabled(st) == st.p.st = "RUNNING"
+FinishPEnabled(st) == ~st.crash /\ st.p.st = "RUNNING"
 DoFinishP(st, ok) ==
   IF ok THEN [st EXCEPT !.p = [st |-> "SUCCEEDED", hash |-> TRUE]]
   ELSE LET s1 == [st EXCEPT !.p = [st |-> "FAILED", hash |-> FALSE]]
@@ -123,32 +124,39 @@ DoFinishP(st, ok) ==
            DetAll(s, ks) == IF ks = {} THEN s ELSE LET k == CHOOSE k \in ks : TRUE IN DetAll(Detach(s, k), ks \ {k})
        IN DetAll(s1, {k \in Steps : st.n[k].ex /\ st.n[k].cr = "P"})
 
-PendPEnabled(st) == st.p.st \in {"SUCCEEDED", "FAILED"}
+PendPEnabled(st) == ~st.crash /\ st.p.st \in {"SUCCEEDED", "FAILED"}
 DoPendP(st) == [st EXCEPT !.p.st = "PENDING"]
 
 (* ----------------------------------- the children ----------------------------------- *)
 StartEnabled(st, s) ==
+  /\ ~st.crash
   /\ st.n[s].ex /\ ~st.n[s].det /\ st.n[s].st = "PENDING" /\ st.p.st \in {"RUNNING", "SUCCEEDED"}
   /\ \A f \in st.n[s].inp : Available(st, f) /\ ~st.n[f].det
-DoStart(st, s) == [st EXCEPT !.n[s].st = "RUNNING"]
+DoStart(st, s) == [st EXCEPT !.n[s].st = "RUNNING", !.j[s] = @ + 1]
 
-SucceedEnabled(st, s) == st.n[s].ex /\ st.n[s].st = "RUNNING"
+\* the completion of a job is recorded on whatever row carries the label now: when the creator
+\* re-created the row while the job was in flight (F25), that is a fresh PENDING row
+SucceedEnabled(st, s) == ~st.crash /\ st.n[s].ex /\ st.j[s] > 0
 DoSucceed(st, s) ==
   LET o == Out(s)
-      s1 == [st EXCEPT !.n[s].st = "SUCCEEDED", !.n[s].hash = TRUE,
-                       !.n[o].st = IF st.n[o].ex /\ st.n[o].cr = s THEN "BUILT" ELSE st.n[o].st]
-  IN MarkPending(s1, Consumers(st, o) \ {s})
+      mine == st.n[o].ex /\ st.n[o].cr = s
+  IN IF mine /\ st.n[o].st = "BUILT"
+     \* a second completion of the same step: "Unexpected file hash update: cause=SUCCEEDED state=BUILT"
+     THEN [st EXCEPT !.crash = TRUE, !.j[s] = @ - 1]
+     ELSE LET s1 == [st EXCEPT !.n[s].st = "SUCCEEDED", !.n[s].hash = TRUE, !.j[s] = @ - 1,
+                               !.n[o].st = IF mine THEN "BUILT" ELSE st.n[o].st]
+          IN MarkPending(s1, Consumers(st, o) \ {s})
 
-FailEnabled(st, s) == st.n[s].ex /\ st.n[s].st = "RUNNING"
+FailEnabled(st, s) == ~st.crash /\ st.n[s].ex /\ st.j[s] > 0
 DoFail(st, s) ==
   LET o == Out(s)
       mine == st.n[o].ex /\ st.n[o].cr = s
-      s1 == [st EXCEPT !.n[s].st = "FAILED", !.n[s].hash = FALSE,
+      s1 == [st EXCEPT !.n[s].st = "FAILED", !.n[s].hash = FALSE, !.j[s] = @ - 1,
                        !.n[o].st = IF mine /\ st.n[o].st \in {"BUILT", "OUTDATED", "PLANNED"} THEN "PLANNED" ELSE st.n[o].st]
   IN IF mine /\ st.n[o].st = "BUILT" THEN MarkPending(s1, Consumers(st, o) \ {s}) ELSE s1
 
 (* ------------------------------------- clean-up ------------------------------------- *)
-CleanEnabled(st) == st.p.st = "SUCCEEDED" /\ \A s \in Steps : ~(st.n[s].ex /\ st.n[s].st = "RUNNING")
+CleanEnabled(st) == ~st.crash /\ st.p.st = "SUCCEEDED" /\ \A s \in Steps : st.j[s] = 0 /\ ~(st.n[s].ex /\ st.n[s].st = "RUNNING")
 \* delete_detached: a detached node without products and without sinks is deleted, repeatedly;
 \* the (detached) creator of a deleted node loses its hash
 RECURSIVE CleanFix(_)
@@ -207,6 +215,11 @@ DoneMeansInputsDeclaredUpToF15 == Complete => \A s \in Steps : Attached(s) =>
 \* a SUCCEEDED step that is skippable (has a hash) owns its output
 HashMeansOutput == \A s \in Steps : (st.n[s].ex /\ st.n[s].st = "SUCCEEDED" /\ st.n[s].hash) => (st.n[Out(s)].ex /\ st.n[Out(s)].cr = s)
 
+\* F25 (known finding): violated in the model -- a step re-created by its creator while its job is in
+\* flight is dispatched again, and the second completion kills the director
+OneJobPerStep == \A s \in Steps : st.j[s] <= 1
+DirectorSurvives == ~st.crash
+
 (* ------------------------------------- replay ------------------------------------- *)
 Lines == ndJsonDeserialize(IOEnv.TRACE_FILE)
 NL == Len(Lines)
@@ -231,7 +244,7 @@ Next ==
      THEN LET r == Apply(cur, Lines[l].acts[ak + 1]) IN
           /\ ak' = ak + 1
           /\ cur' = r[2]
-          /\ acc' = Append(acc, [enabled |-> r[1], p |-> r[2].p, n |-> r[2].n])
+          /\ acc' = Append(acc, [enabled |-> r[1], p |-> r[2].p, n |-> r[2].n, crash |-> r[2].crash])
           /\ UNCHANGED <<l, out>>
      ELSE /\ out' = Append(out, [id |-> Lines[l].id, states |-> acc])
           /\ l' = l + 1 /\ ak' = 0 /\ cur' = Init0 /\ acc' = <<>>
